@@ -108,12 +108,15 @@ func simTempDir() (string, func()) {
 func mkdirAll(d string) error { return os.MkdirAll(d, 0o755) }
 
 
-// simWantReal: thorough tier mirrors one case in ten onto real stores; VERIF_REAL=1 forces it.
+// simWantReal: about one case in ten is mirrored onto real stores (LocalBackend directory + SQLite lock database); VERIF_REAL=1 forces it.
 func simWantReal(draw int) bool {
 	if os.Getenv("VERIF_REAL") != "" {
 		return true
 	}
-	return os.Getenv("VERIF_TIER") == "thorough" && draw == 0
+	if os.Getenv("VERIF_TIER") == "thorough" {
+		return draw == 0
+	}
+	return draw == 5 // quick tier: rapid favours small values, so a middle value keeps this near one case in ten or below
 }
 
 
